@@ -1,8 +1,8 @@
 from _common import COMMON_NOTE
 
 META = {'title': 'Input ports reflect exactly the controls held, for every event history',
- 'lean_modules': ['ZxVerif.Props.C17', 'ZxVerif.Props.C17X', 'ZxVerif.Props.C17Sys'],
- 'extract': ['Keys', 'Sinclair'],
+ 'lean_modules': ['ZxVerif.Props.C17', 'ZxVerif.Props.C17X', 'ZxVerif.Props.C17Y', 'ZxVerif.Props.C17Sys'],
+ 'extract': ['Keys', 'Sinclair', 'InputHandlers'],
  'modelled_code': ['rustzx-core/src/zx/keys.rs',
                    'rustzx-core/src/zx/joy/sinclair.rs',
                    'rustzx-core/src/zx/joy/kempston.rs',
